@@ -6,7 +6,7 @@ import refcodec as rc
 import simnet
 from refserver import RefServer
 
-EXTRA_PROPS = ['C09Wire']
+EXTRA_PROPS = ['C09Wire', 'C09Status']
 
 RULE = ("allowed-version sets (singletons, pairs, chronological prefixes, all supported; as numbers or "
         "names) x default versions x server behaviours (every supported protocol in turn, unsupported/"
@@ -388,6 +388,304 @@ def run(ctx):
         ctx.case(('status-bytes', line))
         if mo != g:
             ctx.disagree('plain status query bytes', line, mo, g)
+    statusx_tie(ctx)
+
+
+def statusx_tie(ctx):
+    """Tie of Model/C09Status.lean (driver `negx.eval`, `statusx.run`; ported from harness/xcheck/c09status_xcheck.py).
+    negx.eval: the real PlayingStatusReactor.handle_status + handle_exception on arbitrary JSON replies (and on a closed
+    connection, an I/O error, unparsable JSON), with `connect` / `disconnect` replaced ON THE INSTANCE by recorders.
+    statusx.run: the real Connection.status on the sequential simnet with all nine handler-mode pairs, a server that
+    pushes responses / pongs / other frames, a scripted clock (connection.timeit replaced, builtins.print recorded: both
+    restored in finally)."""
+    import builtins
+    import math
+    import minecraft
+    import minecraft.networking.connection as C
+    from minecraft.exceptions import VersionMismatch
+    rng = ctx.rng
+    SUP = list(minecraft.SUPPORTED_PROTOCOL_VERSIONS)
+    KNOWN_NAMES = dict(minecraft.KNOWN_MINECRAFT_VERSIONS)
+    hx_ = lambda s: s.encode('utf-8').hex() or '-'
+    cl = lambda xs: ','.join(str(x) for x in xs) or '-'
+
+    def toks(v):
+        if v is None:
+            return ['n']
+        if v is True:
+            return ['t']
+        if v is False:
+            return ['f']
+        if isinstance(v, int):
+            return ['i%d' % v]
+        if isinstance(v, float):
+            if math.isnan(v):
+                return ['Fn']
+            if math.isinf(v):
+                return ['Fx']
+            return ['Fi%d' % int(v)] if v == int(v) else ['Ff']
+        if isinstance(v, str):
+            return ['s' + hx_(v)]
+        if isinstance(v, list):
+            return ['a%d' % len(v)] + [t for x in v for t in toks(x)]
+        if isinstance(v, dict):
+            return ['o%d' % len(v)] + [t for k, x in v.items() for t in [hx_(k)] + toks(x)]
+        raise TypeError(v)
+
+    def atom(v):
+        return 'a' if isinstance(v, list) else 'o' if isinstance(v, dict) else toks(v)[0]
+
+    def strings_in(v, out):
+        if isinstance(v, str):
+            out.add(v)
+        elif isinstance(v, list):
+            for x in v:
+                strings_in(x, out)
+        elif isinstance(v, dict):
+            for k, x in v.items():
+                out.add(k)
+                strings_in(x, out)
+
+    def gen_scalar(allowed):
+        return rng.choice([None, True, False, 0, 1, -3, rng.choice(allowed), rng.choice(SUP), 99999, 2 ** 40,
+                           float(rng.choice(allowed)), float(rng.choice(SUP)), 5.5, float('nan'), float('inf'), float('-inf'),
+                           1e300, -0.0, '47', '', 'protocol', 'version', 'xx'])
+
+    def gen_any(allowed, depth=2):
+        r = rng.random()
+        if depth == 0 or r < 0.5:
+            return gen_scalar(allowed)
+        if r < 0.75:
+            return [gen_any(allowed, depth - 1) for _ in range(rng.randrange(0, 3))] + rng.choice([[], ['version'], ['protocol']])
+        return {rng.choice(['a', 'name', 'protocol', 'version', 'q']): gen_any(allowed, depth - 1) for _ in range(rng.randrange(0, 3))}
+
+    def gen_name(allowed):
+        return rng.choice([None, '1.8.9', '1.12.2', 'zzz', rng.choice(sorted(KNOWN_NAMES)), 7, True, 2.5, [1, 2], {'a': 1}, {}, []])
+
+    def gen_version(allowed):
+        r = rng.random()
+        if r < 0.7:
+            d = {}
+            if rng.random() < 0.85:
+                d['protocol'] = gen_any(allowed, 1) if rng.random() < 0.3 else gen_scalar(allowed)
+                if rng.random() < 0.4:
+                    d['protocol'] = rng.choice([rng.choice(allowed), rng.choice(SUP), None, None])
+            if rng.random() < 0.6:
+                d['name'] = gen_name(allowed)
+            if rng.random() < 0.3:
+                d['z'] = 1
+            its = list(d.items())
+            rng.shuffle(its)
+            return dict(its)
+        if r < 0.8:
+            return rng.choice([[], ['protocol'], ['x', 'protocol'], [['protocol']], [1]])
+        if r < 0.9:
+            return rng.choice(['', 'protocol', 'xprotocolx', 'proto', 'x'])
+        return gen_scalar(allowed)
+
+    def gen_status(allowed):
+        r = rng.random()
+        if r < 0.7:
+            d = {}
+            if rng.random() < 0.85:
+                d['version'] = gen_version(allowed)
+            if rng.random() < 0.5:
+                d['description'] = 'x'
+            its = list(d.items())
+            rng.shuffle(its)
+            return dict(its)
+        if r < 0.8:
+            return rng.choice([[], ['version'], ['a', 'version'], [['version']], [1, None]])
+        if r < 0.9:
+            return rng.choice(['', 'version', 'xversionx', 'versio', 'x'])
+        return gen_any(allowed)
+
+    def err_name(e):
+        for cls, nm in ((TypeError, 'type'), (ValueError, 'value'), (OverflowError, 'other'), (KeyError, 'other'), (AttributeError, 'other')):
+            if isinstance(e, cls):
+                return nm
+        return 'UNEXPECTED:' + type(e).__name__
+
+    def real_eval(allowed, default, kind, status):
+        conn = C.Connection('h', 1, username='u', allowed_versions=set(allowed), initial_version=default)
+        calls, hf = [], []
+        conn.connect = lambda: calls.append(set(conn.allowed_proto_versions))
+        conn.disconnect = lambda immediate=False: None
+        r = C.PlayingStatusReactor(conn)
+        orig = r.handle_failure
+
+        def hfail():
+            hf.append(1)
+            return orig()
+        r.handle_failure = hfail
+        exc = None
+        if kind == 'json':
+            try:
+                r.handle_status(status)
+            except Exception as e:
+                exc = e
+        elif kind == 'closed':
+            exc = EOFError('Unexpected end of message.')
+        elif kind == 'ioerror':
+            exc = ConnectionResetError(104, 'Connection reset by peer')
+        else:
+            try:
+                json.loads('{bad')
+            except Exception as e:
+                exc = e
+        if exc is not None and r.handle_exception(exc, None):      # Connection._handle_exception: the reactor's handler first
+            exc = None
+        if exc is None:
+            if len(calls) != 1 or len(calls[0]) != 1:
+                return 'ok swallowed-but-connect-calls=%r' % (calls,)
+            (v,) = calls[0]
+            if type(v) is float:
+                return 'ok connectfloat %d' % int(v)
+            return 'ok connect %d fb=%d' % (int(v), bool(hf))
+        if isinstance(exc, VersionMismatch):
+            sp, sv = exc.server_protocol, exc.server_version
+            expressible = (sp is None or type(sp) in (int, bool)) and (sv is None or isinstance(sv, str))
+            return 'ok raised mismatch %s %s supported=%d msg=%s' % (atom(sp), atom(sv), 'not supported' not in str(exc),
+                                                                      str(exc).encode().hex() if expressible else '?')
+        if isinstance(exc, EOFError):
+            return 'ok raised eof'
+        if isinstance(exc, json.JSONDecodeError):
+            return 'ok raised json'
+        if isinstance(exc, IOError) and 'Invalid server status' in str(exc):
+            return 'ok raised invalid'
+        if isinstance(exc, OSError):
+            return 'ok raised os'
+        return 'ok raised py:' + err_name(exc)
+    lines, want = [], []
+    for i in range(ctx.scale(400, 6000)):
+        allowed = rng.sample(SUP, rng.randrange(2, 5))
+        default = rng.choice(allowed + [rng.choice(SUP)])
+        kind = rng.choice(['json'] * 12 + ['closed', 'ioerror', 'badjson'])
+        status = gen_status(allowed) if kind == 'json' else None
+        got = real_eval(allowed, default, kind, status)
+        names = set()
+        strings_in(status, names)
+        kn = ','.join('%s:%d' % (hx_(k), KNOWN_NAMES[k]) for k in sorted(names) if k in KNOWN_NAMES) or '-'
+        line = 'negx.eval sp=%s kn=%s allowed=%s default=%d test=eof reply=%s' % (cl(SUP), kn, cl(allowed), default, kind)
+        if kind == 'json':
+            line += ' ' + ' '.join(toks(status))
+        lines.append(line)
+        want.append(got)
+        ctx.count('negx.' + (' '.join(got.split()[1:3]) if 'raised' in got else got.split()[1]))
+    n_negx = len(lines)
+
+    # ---- plain status query on the simnet
+    class PushServer:
+        """sends a fixed sequence of clientbound status-state frames as soon as the client connects"""
+
+        def __init__(self, sock, frames):
+            self.sock = sock
+            for f in frames:
+                sock.inbox.feed(f)
+
+        def on_bytes(self, data):
+            pass
+    frame = lambda pid, body: rc.frame(rc.varint(pid) + body, None)
+    saved_timeit, real_print = C.timeit, builtins.print
+    for i in range(ctx.scale(120, 2500)):
+        hs, hp, ex = rng.choice('dcx'), rng.choice('dcx'), rng.choice([0, 1])
+        clock = sorted(rng.randrange(0, 10 ** 6) for _ in range(8)) if rng.random() < 0.8 else [rng.randrange(0, 10 ** 6) for _ in range(8)]
+        items, frames = [], []
+        for j in range(rng.randrange(0, 7)):
+            r = rng.random()
+            if r < 0.35:
+                text = json.dumps({'n': j, 'description': rng.choice(['a', 'b'])})
+                items.append('r:' + hx_(text))
+                frames.append(frame(0, rc.string(text)))
+            elif r < 0.45:
+                items.append('b')
+                frames.append(frame(0, rc.string('{bad')))
+            elif r < 0.75:
+                t = rng.choice(clock + [0, -5, 2 ** 62, rng.randrange(0, 10 ** 6)])
+                items.append('p:%d' % t)
+                frames.append(frame(1, t.to_bytes(8, 'big', signed=True)))
+            else:
+                items.append('o')
+                frames.append(frame(rng.choice([2, 5, 0x7f]), b'\x01\x02'))
+        it = iter(clock)
+        log, printed = [], []
+        C.timeit = types.SimpleNamespace(default_timer=lambda it=it: next(it) / 1000.0 + 0.0004)
+        try:
+            with simnet.Net(lambda s, frames=frames: PushServer(s, frames)) as net:
+                conn = C.Connection('h', 25565, handle_exception=lambda e, info: log.append('exc:' + err_name(e)),
+                                    handle_exit=(lambda: log.append('exit')) if ex else None)
+                user_s = lambda d: log.append(('status', 'U', d))
+                user_p = lambda ms: log.append('latency:U:%d' % ms)
+                kw = {}
+                if hs != 'd':
+                    kw['handle_status'] = user_s if hs == 'c' else False
+                kw['handle_ping'] = None if hp == 'd' else user_p if hp == 'c' else False
+                conn.status(**kw)
+
+                def who(fn, user):           # instrument what the reactor will call, without replacing any of it
+                    if fn is user:
+                        return 'U'
+                    if getattr(fn, '__func__', None) in (C.StatusReactor.handle_status, C.StatusReactor.handle_ping):
+                        return 'P'
+                    return 'N' if getattr(fn, '__name__', '') == '<lambda>' else '?'
+                os_, op_ = conn.reactor.handle_status, conn.reactor.handle_ping
+                ws, wp = who(os_, user_s), who(op_, user_p)
+
+                def wrap_s(d):
+                    if ws != 'U':
+                        log.append(('status', ws, d))
+                    np_ = len(printed)
+                    res = os_(d)
+                    if ws == 'P' and (len(printed) != np_ + 1 or printed[-1] != (d,)):
+                        log.append('PRINT-MISSING')
+                    if ws == 'N' and len(printed) != np_:
+                        log.append('NOOP-PRINTED')
+                    return res
+
+                def wrap_p(ms):
+                    if wp != 'U':
+                        log.append('latency:%s:%d' % (wp, ms))
+                    np_ = len(printed)
+                    res = op_(ms)
+                    if wp == 'P' and (len(printed) != np_ + 1 or printed[-1] != ('Ping: %d ms' % ms,)):
+                        log.append('PRINT-MISSING')
+                    return res
+                conn.reactor.handle_status, conn.reactor.handle_ping = wrap_s, wrap_p
+                real_wp, real_dc = conn.write_packet, conn.disconnect
+
+                def wp_(packet, force=False):
+                    if packet.packet_name == 'ping':
+                        log.append('ping:%d' % packet.time)
+                    return real_wp(packet, force)
+
+                def dc_(immediate=False):
+                    log.append('discimm' if immediate else 'disc')
+                    return real_dc(immediate)
+                conn.write_packet, conn.disconnect = wp_, dc_
+                builtins.print = lambda *a, **k: printed.append(a)
+                try:
+                    net.run_threads()
+                finally:
+                    builtins.print = real_print
+                ended, connected, thread_errors = int(not net.stops), int(conn.connected), list(net.thread_errors)
+        finally:
+            C.timeit, builtins.print = saved_timeit, real_print
+        acts = ['status:%s:%s' % (a[1], hx_(json.dumps(a[2]))) if isinstance(a, tuple) else a for a in log]
+        err = '-'
+        for a in acts:
+            if a.startswith('exc:'):
+                err = a[4:]
+        want.append('ok acts=%s connected=%d ended=%d err=%s' % (','.join(acts) or '-', connected, ended, err) +
+                    (' THREAD-ERRORS %r' % thread_errors if thread_errors else ''))
+        lines.append('statusx.run hs=%s hp=%s exit=%d script=%s clock=%s' % (hs, hp, ex, ','.join(items) or '-', cl(clock)))
+        ctx.count('statusx.modes.%s%s' % (hs, hp))
+    for line, mo, w in zip(lines, ctx.driver.ask(lines), want):
+        op = line.split()[0]
+        ctx.case(('c09status', line), sample={'op': op, 'impl': w[:160]} if rng.random() < 0.03 else None)
+        if mo != w:
+            ctx.disagree('%s vs the real code' % op, (line if op == 'statusx.run' else line[line.index(' kn='):])[:700], mo[:400], w[:400])
+    ctx.extra['c09negx_pairs'] = ctx.extra.get('c09negx_pairs', 0) + n_negx
+    ctx.extra['c09statusx_pairs'] = ctx.extra.get('c09statusx_pairs', 0) + len(lines) - n_negx
 
 
 def replay(ctx, rp):
